@@ -209,6 +209,27 @@ theorem stxo_roundtrip (C : Curve) (hC : C.YRecovery) (t : Txo) (hw : t.WF) (tai
     decodeSpentTxOut C (putSpentTxOut C t ++ tail) = .ok (t.rt, (putSpentTxOut C t).length) :=
   Lemmas.stxo_rt C hC t hw tail
 
+/-- Databases written by the legacy v1 spend-journal format stay readable: there the slot after the header
+code holds `VLQ(version of the containing transaction)` of any length (today a single 0x00); the decoder
+parses and skips it whatever its value (seeded change C15-d replaced the parse by `offset++`). -/
+theorem stxo_legacy_roundtrip (C : Curve) (hC : C.YRecovery) (t : Txo) (hw : t.WF) (hh : t.height > 0)
+    (version : Nat) (hv : version < 2 ^ 64) (tail : List UInt8) :
+    decodeSpentTxOut C (Lemmas.putSpentTxOutLegacy C t version ++ tail) =
+      .ok (t.rt, (Lemmas.putSpentTxOutLegacy C t version).length) :=
+  Lemmas.stxo_legacy_rt C hC t hw hh version hv tail
+
+/-- …and so does a whole legacy journal entry with any mix of versions, for every transaction shape. -/
+theorem journal_legacy_roundtrip (C : Curve) (hC : C.YRecovery) (l : List (Txo × Nat))
+    (hw : ∀ tv ∈ l, tv.1.WF ∧ tv.2 < 2 ^ 64) (shape : List Nat) (hs : shape.sum = l.length) :
+    deserializeSpendJournalEntry C ((l.reverse.map (Lemmas.putSpentTxOutAny C)).flatten) shape =
+      .ok (l.map (fun tv => tv.1.rt)) := Lemmas.journal_legacy_rt C hC l hw shape hs
+
+/-- version 300 (two-byte VLQ 0x81 0x2c) in the reserved slot of the chainio.go stxo example -/
+example : decodeSpentTxOut ⟨fun _ => none⟩ [0x8b,0x99,0x70, 0x81,0x2c, 0x91,0xf2,0x0f, 0x00, 0x6e,0xdb,0xc6,0xc4,0xd3,0x1b,0xae,0x9f,0x1c,0xcc,
+    0x38,0x53,0x8a,0x11,0x4b,0xf4,0x2d,0xe6,0x5e,0x86]
+  = .ok (⟨34405000000, [0x76,0xa9,0x14,0x6e,0xdb,0xc6,0xc4,0xd3,0x1b,0xae,0x9f,0x1c,0xcc,0x38,0x53,0x8a,0x11,0x4b,0xf4,
+            0x2d,0xe6,0x5e,0x86,0x88,0xac], 100024, false⟩, 29) := by decide
+
 theorem journal_size_eq_length (C : Curve) (l : List Txo) :
     (serializeSpendJournalEntry C l).length = spendJournalSerializeSize C l := Lemmas.journal_size C l
 
